@@ -201,6 +201,10 @@ macro_rules! run_srt {
             let a3v = f64s!(a3.to_cols_array());
             near($cx, $c, "from_scale_rotation_translation linear", stringify!($A3), &lin, &a3v[..9], tol);
             near($cx, $c, "from_scale_rotation_translation translation", stringify!($A3), &tr, &a3v[9..], 0.0);
+            // the determinant of the composed transform is the product of the scales (whatever the translation)
+            let sprod = sc[0] * sc[1] * sc[2];
+            near($cx, $c, "determinant = product of the scales (relative)", stringify!($M4), &[1.0], &[m4.determinant() as f64 / sprod], $tol * 64.0);
+            near($cx, $c, "determinant = product of the scales (relative)", stringify!($A3), &[1.0], &[a3.matrix3.determinant() as f64 / sprod], $tol * 64.0);
             // the documented product of the elementary constructors: translation * rotation * scale
             let prod = $M4::from_translation(t) * $M4::from_quat(q) * $M4::from_scale(s);
             let pv = f64s!(prod.to_cols_array());
@@ -229,6 +233,15 @@ macro_rules! run_srt {
                 near($cx, $c, &format!("to_scale_rotation_translation: scale (negative x iff det < 0; det<0: {detneg})"), who, &ds, &f64s!(s2.to_array()), tol);
                 let back = f64s!($M4::from_scale_rotation_translation(s2, r2, t2).to_cols_array());
                 near($cx, $c, "to_scale_rotation_translation -> recompose", who, &lin, &m3_of4(&back), tol * 4.0);
+                // each scale and each recomposed column relative to its OWN magnitude (axes 2^-10 and 2^10 may be mixed)
+                let s2v = f64s!(s2.to_array());
+                let b3 = m3_of4(&back);
+                for i in 0..3 {
+                    near($cx, $c, &format!("to_scale_rotation_translation: scale[{i}] relative"), who, &[1.0], &[s2v[i] / ds[i]], $tol * 16.0);
+                    let colexp: Vec<f64> = lin[3 * i..3 * i + 3].iter().map(|x| x / ds[i].abs()).collect();
+                    let colgot: Vec<f64> = b3[3 * i..3 * i + 3].iter().map(|x| x / ds[i].abs()).collect();
+                    near($cx, $c, &format!("to_scale_rotation_translation -> recompose column {i} relative"), who, &colexp, &colgot, $tol * 64.0);
+                }
             }
         } else {
             let j = $c["j"].as_i64().unwrap();
